@@ -101,6 +101,9 @@ def run_generated(ctx, ncases, depth, allow_huge):
             encs = modelrun_lines('encode', ['%d %s %s' % (c['hdr'], s, c['enc']) for c, s in zip(cases, syn)])
             datas = [bytes.fromhex('' if e == '-' else e) + c['rest'] for e, c in zip(encs, cases)]
             mdec = modelrun_lines('decode', ['%d %s %s' % (c['hdr'], s, d.hex() or '-') for c, s, d in zip(cases, syn, datas)])
+            if b < 3:
+                from tools import coqeval
+                coqeval.cross_check(ctx, 'C03', ['decode %d %s %s' % (c['hdr'], s, d.hex() or '-') for c, s, d in zip(cases, syn, datas) if all(32 <= ch < 127 for ch in s.encode())][b::3], 'decode%d' % b, limit=70)
             for c, s, d, m in zip(cases, syn, datas, mdec):
                 lt = lib.make(c['t'])
                 got = impl.lib_decode(lt, d, c['hdr'])
